@@ -393,6 +393,8 @@ pub fn judge(case: &Case, answers: &[Ans]) -> Vec<(String, String)> {
                 for &start in &p {
                     let ok = if start < N { items.len() == 1 && matches!(&items[0], Err(e) if e.starts_with("MismatchShapeType")) } else { items.is_empty() };
                     if ok {
+                        // (whether the record that could not be delivered counts as consumed is the reader's choice)
+                        matched.push(start.min(N));
                         matched.push((start + 1).min(N));
                     }
                 }
@@ -561,14 +563,19 @@ pub fn check(tier: Tier) -> i32 {
     let all_progs: Vec<u8> = (0..PROGS.len() as u8).collect();
     let five: Vec<u8> = [Prog::NthNext(1), Prog::NextNthNext(0), Prog::Skip(2), Prog::StepBy(2), Prog::NextLast].iter().map(|p| PROGS.iter().position(|q| q == p).unwrap() as u8).collect();
     // (the depth-5 passes run one reader kind at a time: one visited set for all of them outgrows a single allocation)
-    let passes: Vec<(usize, Vec<u8>, Option<u8>)> = tier.pick(
-        vec![(4, all_progs.clone(), None)],
-        vec![(5, five.clone(), Some(0)), (5, five.clone(), Some(1)), (5, five.clone(), Some(2)), (5, five, Some(3)), (4, all_progs.clone(), None)],
-    );
+    // (and, since the alphabet grew in round 8, one type at a time)
+    let mut deep: Vec<(usize, Vec<u8>, Option<(u8, u8)>)> = vec![];
+    for k in 0..4u8 {
+        for t in 0..types.len() as u8 {
+            deep.push((5, five.clone(), Some((k, t))));
+            deep.push((4, all_progs.clone(), Some((k, t))));
+        }
+    }
+    let passes: Vec<(usize, Vec<u8>, Option<(u8, u8)>)> = tier.pick(vec![(4, all_progs.clone(), None)], deep);
     let mut ctxs = vec![];
     let (mut unique_states, mut states_generated) = (0u64, 0u64);
     for (depth, progs, only_kind) in passes {
-        let inits: Vec<Hist> = inits.iter().filter(|h| only_kind.map(|k| h[0] == k).unwrap_or(true)).cloned().collect();
+        let inits: Vec<Hist> = inits.iter().filter(|h| only_kind.map(|(k, t)| h[0] == k && h[2] == t).unwrap_or(true)).cloned().collect();
         let f2 = fxs.clone();
         let ty2 = types.clone();
         let res = hist::explore(
@@ -616,7 +623,7 @@ pub fn check(tier: Tier) -> i32 {
             tier,
             level: "model_checking",
             engine: "E1 stateright BFS over reader call histories on the real ShapeReader / Reader; oracle = set-valued cursor model (RefReader)",
-            rule: "every sequence up to the depth bound over {Iter(0), Iter(1), Iter(2), Iter(all), Nth(0..3), Seek(0..3), Count} and 14 programs that drive a new iterator through the std adaptors an iterator type may override (nth(k) then next; next, nth(k), next; nth, nth; skip(k); next then skip; step_by(2); last; next then last; count; nth(usize::MAX) fresh and after a next), judged against the same program over the plain sequence of remaining records; for readers with an index also IterAsAnotherType(1): one item of an iteration (pair iteration on the complete Reader) that asks for another concrete type than the file holds, which must be one type-mismatch error that consumes the record and its row; base alphabet: (ShapeReader with index, 13 actions), {Iter*, Seek*, Count, ReadAll} (complete Reader, 10 actions; the same over a shape reader without index, where seek and count must answer MissingIndexFile), {Iter*, Nth(0), Seek(0), Count} (ShapeReader without index: the last three must answer MissingIndexFile) x files of 3 records with pairwise different sizes, with equal sizes, and (readers with an index) stored out of order with fillers between them behind sources returning at most 3 bytes per read, and (ShapeReader with index) at byte offsets beyond 2^31 and 3*2^30 on a sparse source, x types; non-trivial = >= 2 operations",
+            rule: "every sequence up to the depth bound over {Iter(0), Iter(1), Iter(2), Iter(all), Nth(0..3), Seek(0..3), Count} and 14 programs that drive a new iterator through the std adaptors an iterator type may override (nth(k) then next; next, nth(k), next; nth, nth; skip(k); next then skip; step_by(2); last; next then last; count; nth(usize::MAX) fresh and after a next), judged against the same program over the plain sequence of remaining records; for readers with an index also IterAsAnotherType(1): one item of an iteration (pair iteration on the complete Reader) that asks for another concrete type than the file holds, which must be one type-mismatch error, after which an iteration goes on behind that record or from it, pairs aligned; base alphabet: (ShapeReader with index, 13 actions), {Iter*, Seek*, Count, ReadAll} (complete Reader, 10 actions; the same over a shape reader without index, where seek and count must answer MissingIndexFile), {Iter*, Nth(0), Seek(0), Count} (ShapeReader without index: the last three must answer MissingIndexFile) x files of 3 records with pairwise different sizes, with equal sizes, and (readers with an index) stored out of order with fillers between them behind sources returning at most 3 bytes per read, and (ShapeReader with index) at byte offsets beyond 2^31 and 3*2^30 on a sparse source, x types; non-trivial = >= 2 operations",
             bounds: json!({"depth": tier.pick("4 (all 14 adaptor programs)", "5 (5 adaptor programs) and 4 (all 14)"), "records": N, "types": types.iter().map(|t| t.name()).collect::<Vec<_>>()}),
             exhaustive: true,
             assumptions: vec!["the model is non-deterministic after a partial iteration exactly as the statement is: a further iteration may continue or restart".into()],
